@@ -57,7 +57,17 @@ def cases(tier, rng, dist):
         yield {"f": "history", "g": g, "strata": strata, "resp": resp, "ops": ops, "strlabels": False, "labset": rng.choice(["int", "int", "str", "wide", "neg"]), "aseed": rng.randint(0, 10**9),
                # how the caller holds the data: nested lists, or ONE object-dtype table (as read from a file) whose columns are
                # handed over as views: stratum + arm as covariates, the arm column as group, the remaining columns as responses
-               "container": rng.choice(["lists", "lists", "table", "table_f"])}
+               "container": rng.choice(["lists", "lists", "table", "table_f"]),
+               # the values that code the strata: small integers, or non-integer numbers with equal integer parts / of both signs
+               "stratalpha": rng.choice(["int", "int", "frac", "signed"])}
+    # strata that each hold ONE label only: a randomization within strata cannot change the assignment at all, whatever numbers code
+    # the strata (non-integers with equal integer parts, both signs); any movement is a movement between strata
+    for k in range(6 if tier == "quick" else 30):
+        n = rng.randint(8, 12)
+        strata = [i % 3 for i in range(n)]
+        yield {"f": "history", "g": [s % 2 for s in strata], "strata": strata, "resp": [[rng.randint(-3, 3) * 2 * n] for _ in range(n)],
+               "ops": [{"op": "randomize", "in_place": True, "reseed": False}, {"op": "randomize", "in_place": True, "reseed": k % 2 == 0}],
+               "strlabels": False, "labset": "int", "aseed": rng.randint(0, 10**9), "container": "lists", "stratalpha": ["frac", "signed", "int"][k % 3]}
     for _ in range(N // 2):
         n = rng.randint(2, 8); k = rng.choice([1, 2, 2, 3])
         g = [rng.randrange(k) for _ in range(n)]
@@ -516,11 +526,12 @@ def run_history(c):
     t0 = new_tape()
     fn = NPC.randomize_in_strata if c["strata"] is not None else NPC.randomize_group
     R = Experiment.Randomizer(randomize=fn, seed=t0)
-    cov = None if c["strata"] is None else [[s, 7] for s in c["strata"]]
+    SA = {"int": [0, 1, 2], "frac": [0.25, 0.75, 1.5], "signed": [-0.5, 0.5, 0.75]}[c.get("stratalpha", "int")]
+    cov = None if c["strata"] is None else [[SA[s], 7] for s in c["strata"]]
     table = table0 = None
     if c.get("container", "lists") != "lists":
         labs = labels_of(c)
-        rows = [[(c["strata"][i] if c["strata"] is not None else 0), labs[i]] + list(c["resp"][i]) for i in range(len(labs))]
+        rows = [[(SA[c["strata"][i]] if c["strata"] is not None else 0), labs[i]] + list(c["resp"][i]) for i in range(len(labs))]
         table = np.empty((len(rows), len(rows[0])), dtype=object, order="F" if c["container"] == "table_f" else "C")
         for i, r in enumerate(rows):
             for j, v in enumerate(r): table[i, j] = v
